@@ -207,16 +207,16 @@ def eval_system(case):
         w = ev[b] - ev[a]
         if g <= 1.0e-14:                      # uncoupled: the rate must vanish
             if abs(val) > 1.0e-12:
-                viol.append((key, "%s(%d<-%d) = %g but the golden-rule rate is 0"
+                viol.append((key, "%s(%d<-%d) = %s but the golden-rule rate is 0"
                              % (what, a, b, val), None))
             return
-        d = abs(val / g - 1.0)
-        tol = tolf(w, dt)
+        d = abs(val / g - 1.0)          # val may be complex: a rate is a real number, so
+        tol = tolf(w, dt)               # an imaginary part counts as deviation
         tag = "[sd]" if route == "sd" else "[ct]"
         worst(clause + tag, d)
         worst(clause + "/tol" + tag, d / tol)
         if not d <= tol:
-            viol.append((key, "%s(%d<-%d) = %g, golden rule %g at w = %.1f 1/cm "
+            viol.append((key, "%s(%d<-%d) = %s, golden rule %g at w = %.1f 1/cm "
                          "(rel. dev. %.3g > %.3g)"
                          % (what, a, b, val, g, w / GR.CM2INT, d, tol), None))
 
@@ -292,7 +292,7 @@ def eval_system(case):
             continue
         for (a, b) in down:
             golden("tensor.golden", "redfield-tensor/golden-rule/downhill/%s" % rname,
-                   float(dat[a + 1, a + 1, b + 1, b + 1].real), a, b, _tol_tensor(route),
+                   complex(dat[a + 1, a + 1, b + 1, b + 1]), a, b, _tol_tensor(route),
                    "R[aa,bb] in eigenbasis_of(H), ")
 
     # ---- C: time-dependent Redfield rate matrix ---------------------------------
